@@ -33,6 +33,11 @@ inductive FE where
   | cond (t : FE) (a : FE) (b : FE)                 -- (t ? a : b)
   | protoOf (e : FE)                                -- Object.getPrototypeOf(e)
   | regex                                           -- the regular expression literal /x/
+  | wproto (k : String)                             -- String.prototype / Number.prototype / Boolean.prototype / Object.prototype
+  | defAcc (o : FE) (p : String) (t : String)       -- Object.defineProperty(o, "p", {get: <logs G t, returns "v"+t>,
+                                                    --   set: <logs S t and the value>, enumerable: false, configurable: true})
+  | opSet (o : FE) (p : String) (e : FE)            -- o.p += e
+  | incr (o : FE) (p : String)                      -- o.p++
   | defRO (o : FE) (p : String) (e : FE)            -- Object.defineProperty(o, "p", {value: e, writable: false,
                                                     --   enumerable: true, configurable: true})
   | call (f : FE) (args : FEs)                      -- f(args): no base object
